@@ -17,6 +17,9 @@ from . import canon, configs, core, gen, shrink
 PROP = "C05"
 VERBOSITIES = ["Terse", "Medium", "Verbose"]
 ENGINES = ["None", "SSML", "SAPI5"]
+# "no engine selected" in every spelling the library accepts (the value is stored as given): the documented ones and an unknown name
+NO_ENGINE_SPELLINGS = ["None", "none", "NONE", "NoSuchEngine"]
+ENGINE_SPELLINGS = ["SSML", "SAPI5", "ssml", "Sapi5"]
 ELEMS = ["mi", "mo", "mtext", "mn"]
 
 # every preference the workload varies, with the value it has when a configuration does not mention it (documented defaults)
@@ -116,7 +119,7 @@ def random_extra(rng, caps=True):
 
 def random_cfg(rng, lang, tts=None):
     cfg = {"lang": lang, "style": rng.choice(configs.styles(lang)), "verbosity": rng.choice(VERBOSITIES),
-           "tts": tts or rng.choice(["None", "None", "SSML", "SAPI5"])}
+           "tts": tts or (rng.choice(NO_ENGINE_SPELLINGS) if rng.random() < 0.55 else rng.choice(ENGINE_SPELLINGS))}
     extra = random_extra(rng)
     if extra:
         cfg["extra"] = extra
@@ -148,15 +151,18 @@ def visible(tree):
 
 
 def input_ok(tree):
-    """inside the quantifier: no private-use character anywhere, no '[[' / ']]' / '<' inside a multi-character token"""
+    """inside the quantifier: no private-use character, no '[[' / ']]', no token text that is itself tag- or reference-shaped"""
     for n, _ in tree.walk():
         if n.kids is None:
             t = n.text or ""
-            if any(cc.is_private_use(c) for c in t) or (len(t) > 1 and cc.has_forbidden_input(t)):
+            if cc.has_forbidden_input(t):
                 return False
         for v in n.attrs.values():
             if cc.has_forbidden_input(v):
                 return False
+    multi = [n.text or "" for n, _ in tree.walk() if n.kids is None and len(n.text or "") > 1]
+    if multi and cc.could_pass_through_markup([n.text or "" for n, _ in tree.walk() if n.kids is None and (len(n.text or "") > 1 or (n.text or "") in "<>&")]):
+        return False
     return True
 
 
@@ -164,7 +170,9 @@ def char_tree(elem, ch):
     return gen.math(gen.N(elem, text=ch))
 
 
-WORDS = ["if", "and", "x", "sin", "ab", "where", "2", "10", "for all", "π", "≤", "A", "Na", "dx", "n-1", "x,y", "…"]
+WORDS = ["if", "and", "x", "sin", "ab", "where", "2", "10", "for all", "π", "≤", "A", "Na", "dx", "n-1", "x,y", "…",
+         # the XML special characters inside multi-character text (passed through, never looked up in a table)
+         "if a < b & c", "Newton's law", 'say "hi"', "x>y", "<<", ">=", "a&b", "R&D", "f'", "<", "&", "'", '"', ">", "1<2", "p -> q"]
 GLUE = [" ", "⁡", "⁢", "⁣", "⁤", " ", " ", " ", "​", "⁢ ", "  "]
 
 
@@ -180,7 +188,8 @@ def text_token(rng, pool):
             parts.append(rng.choice(GLUE))
     text = "".join(parts)
     if cc.has_forbidden_input(text):
-        text = text.replace("<", "≤").replace("[[", "[").replace("]]", "]")
+        # the parts happen to join into something tag- or reference-shaped: keep the words, drop what makes the shape
+        text = cc.passed_through(text).replace("<", "< ").replace("&", "& ").replace("[[", "[").replace("]]", "]")
     elem = rng.choice(["mtext", "mtext", "mtext", "mi", "mn", "mo", "ms"])
     return gen.N(elem, text=text)
 
@@ -263,10 +272,12 @@ def judge_results(tree, cfg, nav, res, st=None):
             st.count("strings_scanned_" + cls)
             if cls == "nav":
                 st.add("nav_commands_judged", abstract_cmd(nav["cmds"][int(call[4:])]))
-            if tts == "None" and any(c in s for c in ",;"):
+            if cc.no_engine(tts) and any(c in s for c in ",;"):
                 st.count("strings_with_pause_punctuation")
-            elif tts != "None" and "<" in s:
+            elif not cc.no_engine(tts) and "<" in s:
                 st.count("strings_with_engine_markup")
+            if cc.no_engine(tts) and any(c in s for c in "<>&'\""):
+                st.count("plain_strings_with_xml_special_characters")
             if cc.INTERNAL_WORDS_RX.search(s):
                 st.count("rule_internal_words_seen")
                 st.add("rule_internal_words", cc.INTERNAL_WORDS_RX.search(s).group(0))
@@ -440,6 +451,8 @@ def shorten_tokens(tree, still_fails, budget=60):
 def minimise(cfg, tree, nav, kind, cls):
     """smallest expression, shortest command list and most default configuration that still shows a problem of this kind on this kind of call"""
     def fails(c, t, nv):
+        if not input_ok(t):
+            return False          # the shrinker must not leave the quantifier (e.g. shorten a token into something tag-shaped)
         ps = problems_of(c, t, nv)
         return bool(ps) and any(p[0] == kind and call_class(p[2]) == cls for p in ps)
 
@@ -469,7 +482,7 @@ def minimise(cfg, tree, nav, kind, cls):
                 trial[key] = default
             if trial == cfg:
                 continue
-            if key == "tts" and kind == "markup":
+            if key == "tts" and kind == "markup" and not cc.no_engine(cfg.get("tts", "None")):
                 continue
             if trial["style"] not in configs.styles(trial["lang"]):
                 continue
@@ -601,6 +614,7 @@ def handle(st, cfg, tree, nav, res, seen_pre, origin):
             st.count("cases_without_visible_content")
         st.add("languages", cfg["lang"])
         st.add("configs", "%s/%s/%s/%s" % (cfg["lang"], cfg["style"], cfg["verbosity"], cfg.get("tts", "None")))
+        st.add("tts_spellings", cfg.get("tts", "None"))
         for k in cfg.get("extra", {}):
             st.add("extra_preferences", k)
         st.count("cases_" + origin)
@@ -647,8 +661,8 @@ def shard(spec):
                     run_cases(sess, st, cfg, cases, seen_pre, "chars", batch=150)
             elif unit["kind"] == "caps":
                 # every capital-letter preference combination x engine on the letters themselves
-                for variant in CAP_VARIANTS:
-                    for tts in ENGINES:
+                for vi_, variant in enumerate(CAP_VARIANTS):
+                    for tts in [NO_ENGINE_SPELLINGS[vi_ % 4], ENGINE_SPELLINGS[vi_ % 4], ENGINE_SPELLINGS[(vi_ + 1) % 4]]:
                         cfg = {"lang": lang, "style": rng.choice(configs.styles(lang)), "verbosity": rng.choice(VERBOSITIES), "tts": tts}
                         if variant:
                             cfg["extra"] = dict(variant)
@@ -723,7 +737,7 @@ def make_units(tier, seed):
         n_units = 10 if quick else 48
         for i in range(n_units):
             units.append({"kind": "expr", "lang": lang, "pool": pool, "n_cfg": 4 if quick else 12, "per_cfg": 60 if quick else 250,
-                          "p_nav": 0.5, "tts": ENGINES[i % 3] if i % 2 == 0 else "None"})
+                          "p_nav": 0.5, "tts": (NO_ENGINE_SPELLINGS + ENGINE_SPELLINGS)[i % 8] if i % 2 == 0 else None})
     rng.shuffle(units)
     return units, totals
 
